@@ -43,7 +43,6 @@ def op_code_to_number(op_code):
     if op_code not in (
         0,
         79,
-        80,
         81,
         82,
         83,
